@@ -609,7 +609,8 @@ def ex_log(case):
 def group_strategy(tier):
     big = tier == "thorough"
     act = st.tuples(st.sampled_from([0, 1, 1, 2, 3, 5, 8]),
-                    st.sampled_from(["join", "leave", "rejoin", "rejoin", "bounce", "bounce", "poll", "poll", "poll", "poll", "poll",
+                    st.sampled_from(["join", "leave", "rejoin", "rejoin", "bounce", "bounce", "visit", "visit", "visit", "poll", "poll", "poll",
+                                     "poll", "poll",
                                      "app", "app", "app", "app", "app"]),
                     st.integers(0, 3), st.integers(0, len(KEYS) - 1), st.sampled_from([1, 1, 2, 3, 100, 100])).map(list)
     return st.fixed_dictionaries({"np": st.integers(1, 5), "strategy": st.sampled_from([2, 1, 0, 1, 2, 0]), "rdelay": st.sampled_from([0, 1, 2, 4, 4]),
@@ -637,6 +638,8 @@ def ex_group(case):
     for x in script:            # "rejoin" = the consumer leaves and joins again (keeps its committed offsets)
         if x[1] == "rejoin":
             expanded += [[x[0], "leave"] + list(x[2:5]), [1, "join"] + list(x[2:5])]
+        elif x[1] == "visit":   # another member comes, polls and goes: partitions are revoked from the staying members and handed back
+            expanded += [[x[0], "join"] + list(x[2:5]), [1 + _i(x[3]) % 3, "poll"] + list(x[2:5]), [1 + _i(x[3]) % 4, "leave"] + list(x[2:5])]
         else:
             expanded.append(list(x))
     script = [[0, "join", c, 0, 1] for c in range(ncons) if init >> c & 1 or (c == 0 and init)] + expanded
@@ -723,7 +726,7 @@ def ex_group(case):
         else:
             sim.schedule(Event(time=Instant(t), event_type="act", target=cons[_i(a) % ncons],
                                context={"kind": kind, "mx": _i(c, 1, 100)}))
-    state = {"gen": 0, "assign": False, "back": False}
+    state = {"gen": 0, "assign": False, "back": False, "handback": False}
     last_commit = {}
 
     def hook(event):
@@ -753,6 +756,21 @@ def ex_group(case):
                         state["back"] = True
                         r.add(f"{pre}/committed-offset-moved-backwards", f"{name} partition {pid}: {prev} -> {off} at {now} ns")
                     last_commit[(name, pid)] = off
+            # the offset a member resumes from on a partition it owns (what poll() and consumer_lag() use; a missing entry reads
+            # as 0) must not be below what it had committed for that partition earlier, e.g. before the partition was revoked
+            if not state["back"]:
+                allc = getattr(group, "_committed_offsets", {})
+                for name, pids in group.assignments.items():
+                    for pid in pids:
+                        prev = last_commit.get((name, pid))
+                        eff = allc.get(name, {}).get(pid, 0)
+                        if prev is not None and eff < prev:
+                            state["back"] = True
+                            state["handback"] = True
+                            r.add(f"{pre}/committed-offset-moved-backwards",
+                                  f"{name} owns partition {pid} again at {now} ns (generation {group.generation}) and resumes from offset "
+                                  f"{eff}, it had committed {prev}")
+                            break
 
     probe = SimProbe(sim, on_event=hook, log=False, max_per_instant=4000, max_events=100000)
     status = probe.run()
